@@ -1,4 +1,5 @@
 import Taskpool.Inv.Sync
+import Taskpool.Inv.Reg
 /-! The wrapper of a pool task preserves `Good` in every phase, user code included. -/
 namespace Taskpool
 namespace Pool
@@ -27,13 +28,23 @@ theorem _root_.Taskpool.Tame.readyToEnd {p q : Pool} (h : Tame p q) {t : Nat} (h
 theorem ReadyToEnd.unreleased {p : Pool} {t : Nat} (h : p.ReadyToEnd t) : p.Unreleased t := by
   obtain ⟨tk, a, b, _⟩ := h; exact ⟨tk, a, b⟩
 
+/-- the new phase of task `t` is compatible with the registry that files it: unchanged, or `t` is not filed as
+cancelled, or the new phase is past the worker -/
+def PhaseSafe (p : Pool) (t : Nat) (f : PTask → PTask) : Prop :=
+  (∀ x, (f x).phase = x.phase) ∨ t ∉ p.cancelledR ∨ (∀ x, (f x).phase ≠ .created ∧ (f x).phase ≠ .inWorker)
+
+theorem phaseSafe_of_nonNYR (p : Pool) (t : Nat) (f : PTask → PTask) (hp : ∀ x, NYR (f x).phase = false) :
+    PhaseSafe p t f :=
+  Or.inr (Or.inr fun x => ⟨fun e => by have h := hp x; rw [e] at h; exact absurd h (by decide),
+                            fun e => by have h := hp x; rw [e] at h; exact absurd h (by decide)⟩)
+
 /-- any update of an unreleased task that keeps `released` preserves `Good`, whatever phase it enters -/
 theorem good_modTask_unreleased {cap : Nat} (p : Pool) (t : Nat) (f : PTask → PTask)
-    (hg : Good cap p) (hu : p.Unreleased t) (hr : ∀ x, (f x).released = x.released) :
+    (hg : Good cap p) (hu : p.Unreleased t) (hr : ∀ x, (f x).released = x.released) (hc : PhaseSafe p t f) :
     Good cap (p.modTask t f) ∧ (p.modTask t f).Unreleased t := by
   obtain ⟨tk, a, b⟩ := hu
-  have hget : (p.modTask t f).tasks[t]? = some (f tk) := by simp [modTask, List.getElem?_modify, a]
-  refine ⟨⟨?_, ?_⟩, ⟨f tk, hget, by rw [hr]; exact b⟩⟩
+  have hget : (p.modTask t f).tasks[t]? = some (f tk) := by simp [modTask, a]
+  refine ⟨⟨?_, ?_, hg.reg.modTask t f hr hc⟩, ⟨f tk, hget, by rw [hr]; exact b⟩⟩
   · obtain ⟨v, hv, hs⟩ := hg.slot
     exact ⟨v, hv, by simp only [modTask]; rw [heldL_modify_same _ _ _ hr]; exact hs⟩
   · intro i tk' h hn
@@ -49,7 +60,7 @@ theorem good_modTask_unreleased {cap : Nat} (p : Pool) (t : Nat) (f : PTask → 
 theorem modTask_readyToEnd (p : Pool) (t : Nat) (f : PTask → PTask) (hu : p.Unreleased t)
     (hr : ∀ x, (f x).released = x.released) (hp : ∀ x, NYR (f x).phase = false) : (p.modTask t f).ReadyToEnd t := by
   obtain ⟨tk, a, b⟩ := hu
-  exact ⟨f tk, by simp [modTask, List.getElem?_modify, a], by rw [hr]; exact b, hp tk⟩
+  exact ⟨f tk, by simp [modTask, a], by rw [hr]; exact b, hp tk⟩
 
 /-! ### tame pieces of the wrapper -/
 
@@ -76,15 +87,20 @@ theorem tame_suspendTask_endCb (p : Pool) (t) : Tame p (p.suspendTask t .inEndCb
         (tame_modTask p t _ (fun _ => rfl) (fun _ => Or.inr rfl)) (tame_schedTask _ _)
     · exact tame_modTask p t _ (fun _ => rfl) (fun _ => Or.inr rfl)
 
-theorem good_suspendTask {cap : Nat} (p : Pool) (t : Nat) (ph : Phase) (hg : Good cap p) (hu : p.Unreleased t) :
+theorem good_suspendTask {cap : Nat} (p : Pool) (t : Nat) (ph : Phase) (hg : Good cap p) (hu : p.Unreleased t)
+    (hc : t ∉ p.cancelledR ∨ (ph ≠ .created ∧ ph ≠ .inWorker)) :
     Good cap (p.suspendTask t ph) := by
+  have hs1 : PhaseSafe p t (fun k => { k with phase := ph, fut := .cancelled, mustCancel := false }) :=
+    Or.inr (hc.elim Or.inl (fun h => Or.inr fun _ => h))
+  have hs2 : PhaseSafe p t (fun k => { k with phase := ph, fut := .pending }) :=
+    Or.inr (hc.elim Or.inl (fun h => Or.inr fun _ => h))
   unfold suspendTask
   split
   · exact hg
   · split
     · refine (tame_schedTask _ t).good ?_
-      exact (good_modTask_unreleased p t (fun k => { k with phase := ph, fut := .cancelled, mustCancel := false }) hg hu (fun _ => rfl)).1
-    · exact (good_modTask_unreleased p t (fun k => { k with phase := ph, fut := .pending }) hg hu (fun _ => rfl)).1
+      exact (good_modTask_unreleased p t (fun k => { k with phase := ph, fut := .cancelled, mustCancel := false }) hg hu (fun _ => rfl) hs1).1
+    · exact (good_modTask_unreleased p t (fun k => { k with phase := ph, fut := .pending }) hg hu (fun _ => rfl) hs2).1
 
 theorem tame_releaseMapSlot (p : Pool) (t tk) : Tame p (p.releaseMapSlot t tk) := by
   unfold releaseMapSlot
@@ -114,10 +130,14 @@ theorem tame_endCallback (p : Pool) (t tk) : Tame p (p.endCallback t tk) := by
   · exact h
   · exact h.trans (tame_finishTask _ t)
 
-theorem tame_keyErrorFinish (p : Pool) (t) : Tame p (p.keyErrorFinish t) := by
+theorem good_setLost {cap : Nat} (p : Pool) (hg : Good cap p) : Good cap ({ p with lost := true } : Pool) :=
+  ⟨hg.slot, hg.phase, hg.reg.setLost⟩
+
+theorem good_keyErrorFinish {cap : Nat} (p : Pool) (t) (hg : Good cap p) : Good cap (p.keyErrorFinish t) := by
   unfold keyErrorFinish
-  exact Tame.trans (q := p.modTask t fun k => { k with pendingExc := some .keyError })
-    (tame_modTask p t _ (fun _ => rfl) (fun _ => Or.inl rfl)) (tame_finishTask _ t)
+  refine Tame.good ?_ (good_setLost p hg)
+  exact Tame.trans (q := ({ p with lost := true } : Pool).modTask t fun k => { k with pendingExc := some .keyError })
+    (tame_modTask _ t _ (fun _ => rfl) (fun _ => Or.inl rfl)) (tame_finishTask _ t)
 
 /-! ### the release -/
 
@@ -168,18 +188,38 @@ theorem moveToEnded_frame (p p1 : Pool) (t : Nat) (h : p.moveToEnded t = some p1
     · simp at h; subst h; exact ⟨rfl, rfl⟩
     · simp at h
 
-/-- the slot is given back and the task marked released, for a task that is ready to end -/
-theorem good_release {cap : Nat} (p : Pool) (t : Nat) (hg : Good cap p) (hr : p.ReadyToEnd t) :
-    Good cap ((p.releasePool).modTask t fun k => { k with released := true }) := by
+@[simp] theorem schedOpt_running (p : Pool) (o) : (p.schedOpt o).running = p.running := by cases o <;> rfl
+@[simp] theorem schedOpt_cancelledR (p : Pool) (o) : (p.schedOpt o).cancelledR = p.cancelledR := by cases o <;> rfl
+@[simp] theorem schedOpt_ended (p : Pool) (o) : (p.schedOpt o).ended = p.ended := by cases o <;> rfl
+@[simp] theorem schedOpt_lost (p : Pool) (o) : (p.schedOpt o).lost = p.lost := by cases o <;> rfl
+
+theorem releasePool_regs (p : Pool) : p.releasePool.running = p.running ∧ p.releasePool.cancelledR = p.cancelledR ∧
+    p.releasePool.ended = p.ended ∧ p.releasePool.lost = p.lost := by
+  unfold releasePool; simp
+
+theorem moveToEnded_lost (p p1 : Pool) (t : Nat) (h : p.moveToEnded t = some p1) : p1.lost = p.lost := by
+  unfold moveToEnded at h
+  split at h
+  · simp at h; subst h; rfl
+  · split at h
+    · simp at h; subst h; rfl
+    · simp at h
+
+/-- the id is filed as ended, the slot is given back and the task marked released — for a task that is ready to end -/
+theorem good_moveRelease {cap : Nat} (p p1 : Pool) (t : Nat) (hg : Good cap p) (hr : p.ReadyToEnd t)
+    (hm : p.moveToEnded t = some p1) :
+    Good cap ((p1.releasePool).modTask t fun k => { k with released := true }) := by
   obtain ⟨tk, a, b, c⟩ := hr
+  obtain ⟨hs1, ht1⟩ := moveToEnded_frame p p1 t hm
   obtain ⟨v, hv, hs⟩ := hg.slot
-  obtain ⟨v', h1, h2, h3⟩ := releasePool_effect p v hv
-  refine ⟨⟨v', by simpa using h1, ?_⟩, ?_⟩
+  obtain ⟨v', h1, h2, h3⟩ := releasePool_effect p1 v (by rw [hs1]; exact hv)
+  obtain ⟨r1, r2, r3, r4⟩ := releasePool_regs p1
+  refine ⟨⟨v', by simpa using h1, ?_⟩, ?_, ?_⟩
   · have := heldL_modify_release p.tasks t tk (fun k => { k with released := true }) a b (fun _ => rfl)
-    simp only [modTask_sem, modTask_tasks, h3] at *
+    simp only [modTask_sem, modTask_tasks, h3, ht1, hs1] at *
     omega
   · intro i tk' h hn
-    simp only [modTask, h3] at h
+    simp only [modTask, h3, ht1] at h
     obtain ⟨x, hx, rfl⟩ := getElem?_modify_some p.tasks t i _ tk' h
     split at hn
     · rename_i e; subst e
@@ -187,6 +227,7 @@ theorem good_release {cap : Nat} (p : Pool) (t : Nat) (hg : Good cap p) (hr : p.
       simp at hn; rw [c] at hn; cases hn
     · rename_i ne; simp only [ne, if_false]
       exact hg.phase i x hx hn
+  · exact hg.reg.moveRelease t hm _ r1 r2 r3 (r4.trans (moveToEnded_lost p p1 t hm)) (by simp [modTask, h3, ht1])
 
 /-- `_task_ending` for a task that is ready to end -/
 theorem good_taskEnding {cap : Nat} (p : Pool) (t : Nat) (hg : Good cap p) (hr : p.ReadyToEnd t) :
@@ -195,12 +236,10 @@ theorem good_taskEnding {cap : Nat} (p : Pool) (t : Nat) (hg : Good cap p) (hr :
   obtain ⟨tk, a, b, c⟩ := hr
   simp only [a]
   split
-  · exact (tame_keyErrorFinish p t).good hg
+  · exact good_keyErrorFinish p t hg
   · rename_i p1 hm
-    obtain ⟨hs, hts⟩ := moveToEnded_frame p p1 t hm
-    have t1 : Tame p p1 := tame_of_eq _ _ hs hts
     unfold endingTail
-    exact (tame_endCallback _ t tk).good (good_release p1 t (t1.good hg) (t1.readyToEnd ⟨tk, a, b, c⟩))
+    exact (tame_endCallback _ t tk).good (good_moveRelease p p1 t hg ⟨tk, a, b, c⟩ hm)
 
 
 /-! ### the phases of the wrapper -/
@@ -208,19 +247,21 @@ theorem good_taskEnding {cap : Nat} (p : Pool) (t : Nat) (hg : Good cap p) (hr :
 theorem _root_.Taskpool.Tame.goodU {cap : Nat} {p q : Pool} {t : Nat} (h : Tame p q) (hg : Good cap p)
     (hu : p.Unreleased t) : Good cap q ∧ q.Unreleased t := ⟨h.good hg, h.unreleased hu⟩
 
-theorem tame_logHooks (p : Pool) (e : Ev) (ctx : Nat) (hs : List HookOp) : Tame p ((p.logEv e).runHooks ctx hs) :=
-  Tame.trans (tame_logEv p e) (tame_runHooks _ ctx hs)
-
-theorem goodU_suspendTask {cap : Nat} (p : Pool) (t : Nat) (ph : Phase) (hg : Good cap p) (hu : p.Unreleased t) :
+theorem goodU_suspendTask {cap : Nat} (p : Pool) (t : Nat) (ph : Phase) (hg : Good cap p) (hu : p.Unreleased t)
+    (hc : t ∉ p.cancelledR ∨ (ph ≠ .created ∧ ph ≠ .inWorker)) :
     Good cap (p.suspendTask t ph) ∧ (p.suspendTask t ph).Unreleased t := by
-  refine ⟨good_suspendTask p t ph hg hu, ?_⟩
+  refine ⟨good_suspendTask p t ph hg hu hc, ?_⟩
+  have hs1 : PhaseSafe p t (fun k => { k with phase := ph, fut := .cancelled, mustCancel := false }) :=
+    Or.inr (hc.elim Or.inl (fun h => Or.inr fun _ => h))
+  have hs2 : PhaseSafe p t (fun k => { k with phase := ph, fut := .pending }) :=
+    Or.inr (hc.elim Or.inl (fun h => Or.inr fun _ => h))
   unfold suspendTask
   split
   · exact hu
   · split
     · refine Tame.unreleased (tame_schedTask _ t) ?_
-      exact (good_modTask_unreleased p t (fun k => { k with phase := ph, fut := .cancelled, mustCancel := false }) hg hu (fun _ => rfl)).2
-    · exact (good_modTask_unreleased p t (fun k => { k with phase := ph, fut := .pending }) hg hu (fun _ => rfl)).2
+      exact (good_modTask_unreleased p t (fun k => { k with phase := ph, fut := .cancelled, mustCancel := false }) hg hu (fun _ => rfl) hs1).2
+    · exact (good_modTask_unreleased p t (fun k => { k with phase := ph, fut := .pending }) hg hu (fun _ => rfl) hs2).2
 
 /-- the cancel callback with its user code, while the task still holds its slot -/
 theorem good_runCb_cancel {cap : Nat} (p : Pool) (t : Nat) (tk : PTask) (hg : Good cap p) (hu : p.Unreleased t) :
@@ -232,8 +273,8 @@ theorem good_runCb_cancel {cap : Nat} (p : Pool) (t : Nat) (tk : PTask) (hg : Go
   · exact ⟨hg, hu⟩
   · exact Tame.goodU (tame_logEv _ _) hg1 hu1
   · obtain ⟨hg2, hu2⟩ := Tame.goodU (tame_logEv (p.cbBegin t tk false) (evCbRaised t false)) hg1 hu1
-    exact good_modTask_unreleased _ t _ hg2 hu2 (fun _ => rfl)
-  · exact goodU_suspendTask _ t _ hg1 hu1
+    exact good_modTask_unreleased _ t _ hg2 hu2 (fun _ => rfl) (Or.inl fun _ => rfl)
+  · exact goodU_suspendTask _ t _ hg1 hu1 (Or.inr ⟨by decide, by decide⟩)
 
 /-- if the cancel callback did not suspend, the task is still outside the slot-holding phases -/
 theorem runCb_cancel_ready (p : Pool) (t : Nat) (tk : PTask) (hr : p.ReadyToEnd t)
@@ -259,21 +300,38 @@ theorem good_cancelCallback {cap : Nat} (p : Pool) (t : Nat) (tk : PTask) (hg : 
   · rename_i hns
     exact good_taskEnding _ t h.1 (runCb_cancel_ready p t tk hr (by simpa using hns))
 
+theorem nonNYR_ne (ph : Phase) (h : NYR ph = false) : ph ≠ .created ∧ ph ≠ .inWorker :=
+  ⟨fun e => by rw [e] at h; exact absurd h (by decide), fun e => by rw [e] at h; exact absurd h (by decide)⟩
+
+/-- the id moves from the running to the cancelled registry -/
+theorem good_regCancel {cap : Nat} (p : Pool) (t : Nat) (hg : Good cap p) (hr : p.ReadyToEnd t) (ht : t ∈ p.running) :
+    Good cap ({ p with running := p.running.erase t, cancelledR := p.cancelledR ++ [t] } : Pool) ∧
+    ({ p with running := p.running.erase t, cancelledR := p.cancelledR ++ [t] } : Pool).ReadyToEnd t := by
+  obtain ⟨tk, a, b, c⟩ := hr
+  refine ⟨⟨hg.slot, hg.phase, hg.reg.regCancel t ht ?_⟩, ⟨tk, a, b, c⟩⟩
+  intro tk' h
+  rw [a] at h; cases h
+  exact nonNYR_ne _ c
+
 theorem good_taskCancellation {cap : Nat} (p : Pool) (t : Nat) (tk : PTask) (hg : Good cap p) (hr : p.ReadyToEnd t) :
     Good cap (p.taskCancellation t tk) := by
   unfold taskCancellation
   split
-  · have t1 : Tame p ({ p with running := p.running.erase t, cancelledR := p.cancelledR ++ [t] } : Pool) :=
-      tame_of_eq _ _ rfl rfl
-    exact good_cancelCallback _ t tk (t1.good hg) (t1.readyToEnd hr)
-  · have t1 := tame_modTask p t (fun k => { k with pendingExc := some .keyError }) (fun _ => rfl) (fun _ => Or.inl rfl)
-    exact good_taskEnding _ t (t1.good hg) (t1.readyToEnd hr)
+  · rename_i hc
+    obtain ⟨hg1, hr1⟩ := good_regCancel p t hg hr (by simpa using hc)
+    exact good_cancelCallback _ t tk hg1 hr1
+  · have hg1 := good_setLost p hg
+    have hr1 : ({ p with lost := true } : Pool).ReadyToEnd t := hr
+    have t1 := tame_modTask ({ p with lost := true } : Pool) t (fun k => { k with pendingExc := some .keyError })
+      (fun _ => rfl) (fun _ => Or.inl rfl)
+    exact good_taskEnding _ t (t1.good hg1) (t1.readyToEnd hr1)
 
 /-- an unreleased task enters `wrapUp` and then `_task_ending` -/
 theorem good_wrapUp_ending {cap : Nat} (p : Pool) (t : Nat) (f : PTask → PTask) (hg : Good cap p) (hu : p.Unreleased t)
     (hr : ∀ x, (f x).released = x.released) (hp : ∀ x, NYR (f x).phase = false) :
     Good cap ((p.modTask t f).taskEnding t) :=
-  good_taskEnding _ t (good_modTask_unreleased p t f hg hu hr).1 (modTask_readyToEnd p t f hu hr hp)
+  good_taskEnding _ t (good_modTask_unreleased p t f hg hu hr (phaseSafe_of_nonNYR p t f hp)).1
+    (modTask_readyToEnd p t f hu hr hp)
 
 /-- the worker coroutine is over (normally or with an exception): `wrapUp`, then `_task_ending` -/
 theorem good_afterWorker {cap : Nat} (p : Pool) (t : Nat) (e : Option Err) (hg : Good cap p) (hu : p.Unreleased t) :
@@ -285,24 +343,29 @@ theorem good_afterWorker {cap : Nat} (p : Pool) (t : Nat) (e : Option Err) (hg :
   · obtain ⟨hg1, hu1⟩ := Tame.goodU (tame_logEv p (Ev.raised t)) hg hu
     exact good_wrapUp_ending _ t _ hg1 hu1 (fun _ => rfl) (fun _ => rfl)
 
-theorem good_stepCreated {cap : Nat} (p : Pool) (t : Nat) (tk : PTask) (hg : Good cap p) (hu : p.Unreleased t) :
-    Good cap (p.stepCreated t tk) := by
+theorem good_stepCreated {cap : Nat} (p : Pool) (t : Nat) (tk : PTask) (hg : Good cap p) (hu : p.Unreleased t)
+    (hnc : t ∉ p.cancelledR) : Good cap (p.stepCreated t tk) := by
   unfold stepCreated
   split
-  · exact (tame_completeTask p t _).good hg
-  · split
-    · obtain ⟨hg1, _⟩ := good_modTask_unreleased p t
-        (fun k => { k with phase := .wrapUp, unstarted := false, cancelledEarly := false }) hg hu (fun _ => rfl)
-      exact good_taskCancellation _ t tk hg1 (modTask_readyToEnd _ t _ hu (fun _ => rfl) (fun _ => rfl))
-    · simp only
-      obtain ⟨hg0, hu0⟩ := Tame.goodU (tame_logEv p (Ev.started t tk.arg)) hg hu
-      obtain ⟨hg1, hu1⟩ := good_modTask_unreleased (p.logEv (Ev.started t tk.arg)) t
-        (fun k => { k with phase := .inWorker, fut := .ok, unstarted := false }) hg0 hu0 (fun _ => rfl)
-      obtain ⟨hg2, hu2⟩ := Tame.goodU (tame_runHooks _ tk.req (p.reqOf tk).hooks.start) hg1 hu1
-      split
-      · exact good_afterWorker _ t _ hg2 hu2
-      · exact good_afterWorker _ t _ hg2 hu2
-      · exact good_suspendTask _ t _ hg2 hu2
+  · obtain ⟨hg1, _⟩ := good_modTask_unreleased p t
+      (fun k => { k with phase := .wrapUp, unstarted := false, cancelledEarly := false }) hg hu (fun _ => rfl)
+      (Or.inr (Or.inl hnc))
+    exact good_taskCancellation _ t tk hg1 (modTask_readyToEnd _ t _ hu (fun _ => rfl) (fun _ => rfl))
+  · simp only
+    obtain ⟨hg0, hu0⟩ := Tame.goodU (tame_logEv p (Ev.started t tk.arg)) hg hu
+    obtain ⟨hg1, hu1⟩ := good_modTask_unreleased (p.logEv (Ev.started t tk.arg)) t
+      (fun k => { k with phase := .inWorker, fut := .ok, unstarted := false }) hg0 hu0 (fun _ => rfl)
+      (Or.inr (Or.inl hnc))
+    have t2 := tame_runHooks ((p.logEv (Ev.started t tk.arg)).modTask t
+      (fun k => { k with phase := .inWorker, fut := .ok, unstarted := false })) tk.req (p.reqOf tk).hooks.start
+    obtain ⟨hg2, hu2⟩ := Tame.goodU t2 hg1 hu1
+    have hnc2 : t ∉ (((p.logEv (Ev.started t tk.arg)).modTask t
+      (fun k => { k with phase := .inWorker, fut := .ok, unstarted := false })).runHooks tk.req (p.reqOf tk).hooks.start).cancelledR := by
+      rw [t2.can]; exact hnc
+    split
+    · exact good_afterWorker _ t _ hg2 hu2
+    · exact good_afterWorker _ t _ hg2 hu2
+    · exact good_suspendTask _ t _ hg2 hu2 (Or.inl hnc2)
 
 theorem good_workerCancelled {cap : Nat} (p : Pool) (t : Nat) (tk : PTask) (hg : Good cap p) (hu : p.Unreleased t) :
     Good cap (p.workerCancelled t tk) := by
@@ -311,6 +374,7 @@ theorem good_workerCancelled {cap : Nat} (p : Pool) (t : Nat) (tk : PTask) (hg :
   obtain ⟨hg0, hu0⟩ := Tame.goodU (tame_logEv p (Ev.sawCancel t)) hg hu
   obtain ⟨hg1, hu1⟩ := good_modTask_unreleased (p.logEv (Ev.sawCancel t)) t
     (fun k => { k with sawCancel := true, phase := .wrapUp }) hg0 hu0 (fun _ => rfl)
+    (Or.inr (Or.inr fun _ => ⟨by simp, by simp⟩))
   split
   · exact good_afterWorker _ t _ hg1 hu1
   · exact good_taskCancellation _ t tk hg1 (modTask_readyToEnd _ t _ hu0 (fun _ => rfl) (fun _ => rfl))
@@ -320,6 +384,7 @@ theorem good_stepInWorker {cap : Nat} (p : Pool) (t : Nat) (tk : PTask) (hg : Go
   unfold stepInWorker
   split
   · obtain ⟨hg1, hu1⟩ := good_modTask_unreleased p t (fun k => { k with mustCancel := false }) hg hu (fun _ => rfl)
+      (Or.inl fun _ => rfl)
     exact good_workerCancelled _ t tk hg1 hu1
   · split
     · exact good_afterWorker p t _ hg hu
@@ -348,7 +413,7 @@ theorem tame_stepInEndCb (p : Pool) (t : Nat) (tk : PTask) : Tame p (p.stepInEnd
     exact Tame.trans (tame_logEv p _) (tame_modTask _ t _ (fun _ => rfl) (fun _ => Or.inl rfl))
   · exact Tame.refl p
 
-/-- one step of any pool task preserves slot conservation and the phase invariant -/
+/-- one step of any pool task preserves slot conservation, the phase invariant and the registry invariant -/
 theorem good_stepTask {cap : Nat} (p : Pool) (t : Nat) (hg : Good cap p) : Good cap (p.stepTask t) := by
   unfold stepTask
   split
@@ -361,8 +426,13 @@ theorem good_stepTask {cap : Nat} (p : Pool) (t : Nat) (hg : Good cap p) : Good 
       have hg0 := t0.good hg
       have unrel : NYR tk.phase = true → (p.modTask t fun k => { k with sched := false }).Unreleased t :=
         fun hn => t0.unreleased ⟨tk, htk, hg.phase t tk htk hn⟩
+      have notCan : tk.phase = .created → t ∉ (p.modTask t fun k => { k with sched := false }).cancelledR := by
+        intro hph hmem
+        obtain ⟨tk', a, _, c, _⟩ := hg.reg.can t hmem
+        rw [htk] at a; cases a
+        exact c hph
       split
-      · rename_i hph; exact good_stepCreated _ t tk hg0 (unrel (by rw [hph]; rfl))
+      · rename_i hph; exact good_stepCreated _ t tk hg0 (unrel (by rw [hph]; rfl)) (notCan hph)
       · exact hg0
       · rename_i hph; exact good_stepInWorker _ t tk hg0 (unrel (by rw [hph]; rfl))
       · rename_i hph; exact good_stepInCancelCb _ t tk hg0 (unrel (by rw [hph]; rfl))
